@@ -7,6 +7,8 @@ import Mathlib.Data.List.Perm.Subperm
 import Mathlib.Data.List.GetD
 import Mathlib.Data.Finset.Sort
 import Mathlib.Data.List.Lex
+import Mathlib.Algebra.Order.Floor.Ring
+import Mathlib.Data.List.FinRange
 import Mathlib.Algebra.BigOperators.Group.List.Basic
 import Mathlib.Algebra.Order.BigOperators.Group.List
 import Mathlib.Tactic.Linarith
@@ -749,5 +751,83 @@ theorem SE3Act_inv_left (X : SE3 ℝ) (h : X.q.normSq = 1) (p : Vec3 ℝ) : SE3A
   simp only [SE3Act, SE3Inv]
   rw [Quat.act_add, Quat.conj_act_act _ h]
   ext <;> simp [Vec3.add, Vec3.neg]
+
+
+/-! ## pass 3: truncation, partitions, clamp, dtype constants -/
+
+/-- `.to(torch.int64)` on reals: truncation toward zero -/
+noncomputable def truncZ (x : ℝ) : ℤ := if 0 ≤ x then ⌊x⌋ else ⌈x⌉
+
+/-- truncating `w / v` for `w ≥ 0`: the floor of `w / |v|` with the sign of `v` -/
+theorem truncZ_div (w v : ℝ) (hw : 0 ≤ w) (hv : v ≠ 0) :
+    truncZ (w / v) = (if 0 < v then 1 else -1) * ⌊w / |v|⌋ := by
+  unfold truncZ
+  rcases lt_or_gt_of_ne hv with h | h
+  · -- v < 0
+    have habs : |v| = -v := abs_of_neg h
+    have hq : w / v = -(w / |v|) := by rw [habs, div_neg, neg_neg]
+    have hy : 0 ≤ w / |v| := div_nonneg hw (abs_nonneg v)
+    rw [if_neg (not_lt.2 h.le)]
+    by_cases h0 : 0 ≤ w / v
+    · have hz : w / |v| = 0 := by linarith [hq ▸ h0]
+      rw [if_pos h0, hq, hz]; simp
+    · rw [if_neg h0, hq, Int.ceil_neg]; ring
+  · have habs : |v| = v := abs_of_pos h
+    rw [if_pos h, habs, if_pos (div_nonneg hw h.le)]; ring
+
+theorem sum_indicator {β : Type} [DecidableEq β] (u : List β) (x : β) (hnd : u.Nodup) (hx : x ∈ u) :
+    (u.map fun kx => if x = kx then 1 else 0).sum = 1 := by
+  induction u with
+  | nil => simp at hx
+  | cons a u ih =>
+    rw [List.nodup_cons] at hnd
+    by_cases h : x = a
+    · subst h
+      have : (u.map fun kx => if x = kx then 1 else 0) = u.map fun _ => 0 := by
+        apply List.map_congr_left
+        intro b hb
+        have : x ≠ b := fun e => hnd.1 (e ▸ hb)
+        simp [this]
+      simp [this]
+    · have hx' : x ∈ u := by
+        rcases List.mem_cons.1 hx with e | e
+        · exact absurd e h
+        · exact e
+      simp [h, ih hnd.2 hx']
+
+theorem sum_countP_cover {β γ : Type} [DecidableEq γ] (f : β → γ) (u : List γ) (hnd : u.Nodup) :
+    ∀ l : List β, (∀ p ∈ l, f p ∈ u) → (u.map fun kx => (l.filter fun p => decide (f p = kx)).length).sum = l.length
+  | [], _ => by simp
+  | p :: l, h => by
+    have ih := sum_countP_cover f u hnd l (fun q hq => h q (List.mem_cons_of_mem _ hq))
+    have hp := sum_indicator u (f p) hnd (h p List.mem_cons_self)
+    have : (u.map fun kx => ((p :: l).filter fun q => decide (f q = kx)).length)
+        = u.map fun kx => (if f p = kx then 1 else 0) + (l.filter fun q => decide (f q = kx)).length := by
+      apply List.map_congr_left
+      intro kx _
+      by_cases e : f p = kx <;> simp [e, Nat.add_comm]
+    rw [this, List.sum_map_add, hp, ih, List.length_cons, Nat.add_comm]
+
+theorem homoDen_clamped (tiny w : ℝ) (h : |w| < tiny) : homoDen tiny w = (if w < 0 then -1 else 1) * tiny := by
+  unfold homoDen
+  rw [spm_real, smax_real, sabs_real, max_eq_right h.le]
+
+theorem finfoTiny_pos_le_one (dt : Dtype) : (0 : ℝ) < finfoTiny dt ∧ (finfoTiny dt : ℝ) ≤ 1 := by
+  have key : ∀ n : ℕ, (0 : ℝ) < 1 / ((2 ^ n : ℕ) : ℝ) ∧ 1 / ((2 ^ n : ℕ) : ℝ) ≤ 1 := by
+    intro n
+    have h1 : (1 : ℝ) ≤ ((2 ^ n : ℕ) : ℝ) := by
+      rw [Nat.cast_pow]; exact one_le_pow₀ (by norm_num)
+    exact ⟨by positivity, (div_le_one (by linarith)).2 h1⟩
+  cases dt
+  · simpa only [finfoTiny, q_real, Nat.cast_one] using key 126
+  · simpa only [finfoTiny, q_real, Nat.cast_one] using key 1022
+
+theorem pdist_full (o : Norm) (pd : Nat) (a b : Pt ℝ) (ha : a.length ≤ pd) (hb : b.length ≤ pd) :
+    pdist o pd a b = dist o a b := by
+  unfold pdist
+  rw [List.take_of_length_le ha, List.take_of_length_le hb]
+
+/-- intrinsics with a skew entry `s`: `[[fx,s,cx],[0,fy,cy],[0,0,1]]` -/
+def skewK (fx fy cx cy s : ℝ) : Mat3 ℝ := ⟨⟨fx, s, cx⟩, ⟨0, fy, cy⟩, ⟨0, 0, 1⟩⟩
 
 end PP.Cloud
